@@ -249,15 +249,27 @@ def exec_workflow(case):
                 data = (np.arange(w * h, dtype=np.float32).reshape(h, w) % 97) + 1
                 fpath = os.path.join(d, "img.fits")
                 fits.writeto(fpath, data, header=wcsgen.header_of(spec, w, h))
+                inputs = [fpath]
                 kw = {}
+                start = case.get("start")
                 if wf == "tile_fits_toast":
-                    kw = {"tiling_method": toasty.TilingMethod.TOAST, "start": case["start"]}
+                    kw = {"tiling_method": toasty.TilingMethod.TOAST}
+                    if case.get("second"):
+                        # a collection of two images with different pixel scales, in either order
+                        w2, h2 = case["second"]["size"]
+                        f2 = os.path.join(d, "img2.fits")
+                        fits.writeto(f2, (np.arange(w2 * h2, dtype=np.float32).reshape(h2, w2) % 89) + 1, header=wcsgen.header_of(case["second"]["wcs"], w2, h2))
+                        inputs = [fpath, f2] if case["second"]["last"] else [f2, fpath]
+                    if case.get("auto_start"):
+                        start = None  # the base level is chosen from the images' pixel scales
+                    else:
+                        kw["start"] = start
                 else:
                     kw = {"tiling_method": toasty.TilingMethod.TAN}
                 with toasty_call("workflow", wf):
                     with warnings.catch_warnings():
                         warnings.simplefilter("ignore")
-                        odir, bld = toasty.tile_fits([fpath], out_dir=out, parallel=1, **kw)
+                        odir, bld = toasty.tile_fits(inputs, out_dir=out, parallel=1, **kw)
                 if wf == "tile_fits_tan":
                     pos, L = study_positions(w, h, True)
                     check_wtml_vs_disk(out, pos, f"tile_fits TAN {w}x{h}", L)
@@ -268,13 +280,22 @@ def exec_workflow(case):
                     iset, _pl = parse_wtml(os.path.join(out, "index_rel.wtml"))
                     url = iset.attrib["Url"]
                     pos = set()
-                    for p in rp.all_positions(case["start"]):
-                        if os.path.normpath(expand(url, p)) in set(os.path.normpath(f) for f in files):
+                    norm = set(os.path.normpath(f) for f in files)
+                    if start is None:
+                        # the level toasty chose is whatever the deepest layer on disk is
+                        start = max([int(f.replace("\\", "/").split("/")[0]) for f in files if f.replace("\\", "/").split("/")[0].isdigit()] + [0])
+                    for p in rp.all_positions(min(start, 6)):
+                        if os.path.normpath(expand(url, p)) in norm:
                             pos.add(p)
-                    if not any(p[0] == case["start"] for p in pos):
-                        raise Violation("url-vs-disk", f"tile_fits TOAST start={case['start']}: no tile of the start level is found through the Url template {url!r}; files: {sorted(files)[:5]}")
-                    check_wtml_vs_disk(out, pos, f"tile_fits TOAST start={case['start']}", case["start"])
+                    whatt = f"tile_fits TOAST of {len(inputs)} image(s), start={'auto' if case.get('auto_start') else start}"
+                    if not any(p[0] == start for p in pos):
+                        raise Violation("url-vs-disk", f"{whatt}: no tile of the deepest level {start} is found through the Url template {url!r}; files: {sorted(files)[:5]}")
+                    check_wtml_vs_disk(out, pos, whatt, start)
                     nt = True
+                    if len(inputs) > 1:
+                        cls.append("two-images-of-different-scale")
+                    if case.get("auto_start"):
+                        cls.append("base-level-chosen-by-toasty")
                 compare_builder_with_wtml(bld, out, wf)
                 cls += [wf]
             elif wf == "pipeline":
@@ -444,6 +465,15 @@ def strat_workflow(draw, tier):
         spec["crpix_mode"] = "half"
         spec["ratio"] = 1.0
         case["wcs"] = spec
+        if draw(st.booleans()):
+            case["auto_start"] = True
+            # keep the automatically chosen level small: >= 0.08 deg / pixel
+            spec["scale"] = max(spec["scale"], 0.08)
+        if draw(st.booleans()):
+            s2 = draw(wcsgen.wcs_specs(projections=("TAN",), max_dec=70, min_scale_log=-1.1, max_scale_log=-0.2, allow_skew=False))
+            s2["crpix_mode"] = "half"
+            s2["ratio"] = 1.0
+            case["second"] = {"size": [draw(st.integers(20, 80)), draw(st.integers(20, 80))], "wcs": s2, "last": draw(st.booleans())}
     return case
 
 
@@ -615,7 +645,7 @@ def strat_history(draw, tier):
 PARTS = [
     Part("path_schemes_all", exec_scheme, enumerate=enum_schemes, shards={"quick": 8, "thorough": 8}, describe="both schemes x four formats x every position to depth 6"),
     Part("path_schemes_deep", exec_scheme, strategy=strat_scheme, examples={"quick": 300, "thorough": 20000}, shards={"quick": 4, "thorough": 16}, describe="generated positions to depth 20"),
-    Part("workflows", exec_workflow, strategy=strat_workflow, examples={"quick": 96, "thorough": 3000}, shards={"quick": 16, "thorough": 16},
+    Part("workflows", exec_workflow, strategy=strat_workflow, examples={"quick": 192, "thorough": 3000}, shards={"quick": 16, "thorough": 16},
          budget_s={"quick": 80, "thorough": 1500}, describe="tile-study / tile-allsky (+cascade) CLI, tile_fits TAN and TOAST: WTML vs directory tree, returned Builder vs WTML"),
     Part("tile_fits_histories", exec_history, strategy=strat_history, examples={"quick": 160, "thorough": 3000}, shards={"quick": 16, "thorough": 16},
          budget_s={"quick": 80, "thorough": 1500}, describe="histories of tile_fits calls on one output directory (fresh / repeat / override / different parallel)"),
